@@ -109,8 +109,10 @@ def run_case(ctx, case):
         files_before = job_files(d_before, jid)
         sfiles = job_files({k: v[:2] for k, v in s_before.items()}, jid)
         for rel, ent in sfiles.items():
-            if ent[0] != "f" or rel in (model.SP_FILE, model.DOC_FILE):
+            if ent[0] != "f" or rel == model.SP_FILE:
                 continue
+            if rel == model.DOC_FILE and opts["doc_sync"] != "COPY":
+                continue  # under DocSync.COPY the document is an ordinary file
             base = os.path.basename(rel)
             if syncgen.excluded(opts, base):
                 continue
